@@ -270,9 +270,11 @@ fn auth_rc(rc: u8) -> AuthReasonCode {
 fn build_packet(loc: Loc, rc: u8, props: Properties) -> Result<(), MqttError> {
     match loc {
         Loc::Connect => v5_0::Connect::builder().client_id("")?.clean_start(true).props(props).build().map(|_| ()),
+        // (both property sections are set: the will section is judged on its own whatever the other holds)
         Loc::Will => v5_0::Connect::builder()
             .client_id("")?
             .clean_start(true)
+            .props(Properties::new())
             .will_message("t", Vec::<u8>::new(), Qos::AtMostOnce, false)?
             .will_props(props)
             .build()
